@@ -651,7 +651,8 @@ def _get_random_samples_from_priors_(gp: gpr.GP):
     """
     hyp = gp.get_hyperparameters()[-1]  # copy of the hyper-params
     for key, value in gp.get_priors().items():
-        if value[0] == "gaussian":
+        # priors that are not set (or not finite) are returned as None
+        if value is not None and value[0] == "gaussian":
             gauss_parameter = value[1]
             mean_priors = gauss_parameter[0]
             sigma_priors = gauss_parameter[1]
